@@ -49,6 +49,9 @@ def snapshot(path):
             out[os.path.relpath(os.path.join(root, d), path)] = ('dir',)
         for f in files:
             p = os.path.join(root, f)
+            if os.path.islink(p) and not os.path.exists(p):
+                out[os.path.relpath(p, path)] = ('dangling link', os.readlink(p))      # (a symbolic link whose target is there counts as the file it shows)
+                continue
             out[os.path.relpath(p, path)] = ('file', hashlib.sha1(open(p, 'rb').read()).hexdigest())
     return out
 
